@@ -73,6 +73,9 @@ impl Stats {
         self.runs += 1;
         self.events += o.events.iter().filter(|e| e.seq >= 0).count() as u64;
         self.traces.insert(o.trace_hash);
+        if o.events.iter().any(|e| e.op == "getrandom" && e.req == 16) {
+            self.probe("getrandom-served");
+        }
         let mut kinds: BTreeSet<String> = BTreeSet::new();
         for e in &o.events {
             if !e.injected || e.op == "getrandom" {
